@@ -204,7 +204,7 @@ theorem human_roundtrip (lookup : String → Option (List (SymUnit α × Int))) 
   | cons e r ih =>
     obtain ⟨hs, r', h1, h2, h3, h4⟩ := ih (fun x hx => h x (by simp [hx]))
     rcases h e (by simp) with rfl | ⟨mag, u, u', rfl, hl, hu⟩
-    · refine ⟨.one :: hs, .num 1 :: r', by simp [toHuman, toHumanEntry, h1], by simp [fromHuman, fromHumanEntry, h2], by simp [h3], ?_⟩
+    · refine ⟨.one 1 :: hs, .num 1 :: r', by simp [toHuman, toHumanEntry, h1], by simp [fromHuman, fromHumanEntry, h2], by simp [h3], ?_⟩
       intro hex
       rw [h4 (fun x hx => hex x (by simp [hx]))]
     · refine ⟨.fs mag u.symbol :: hs, .q mag [(u', 1)] :: r', by simp [toHuman, toHumanEntry, h1],
@@ -995,9 +995,9 @@ theorem unitOfScalarS_spec (v : PyVal α) (hv : v.WF) :
 /-- when does `unit_registry_from_human_readable` accept an entry, and what does it return -/
 theorem fromHumanEntry_ok_iff (lookup : String → Option (List (SymUnit α × Int))) (e : HumanEntry α) (r : RegEntry α) :
     fromHumanEntry lookup e = .ok r ↔
-      (e = .one ∧ r = .num 1) ∨ ∃ f sym u k, e = .fs f sym ∧ lookup sym = some [(u, k)] ∧ r = .q f [(u, 1)] := by
+      (∃ f, e = .one f ∧ r = .num (f * 1)) ∨ ∃ f sym u k, e = .fs f sym ∧ lookup sym = some [(u, k)] ∧ r = .q f [(u, 1)] := by
   cases e with
-  | one => simp [fromHumanEntry, eq_comm]
+  | one f0 => simp [fromHumanEntry, eq_comm]
   | fs f sym =>
     cases h : lookup sym with
     | none => simp [fromHumanEntry, h]
@@ -1007,8 +1007,9 @@ theorem fromHumanEntry_ok_iff (lookup : String → Option (List (SymUnit α × I
       | [(u, k)], h =>
         simp only [fromHumanEntry, h, Except.ok.injEq, reduceCtorEq, false_and, false_or, HumanEntry.fs.injEq]
         constructor
-        · intro hr; exact ⟨f, sym, u, k, ⟨rfl, rfl⟩, h, hr.symm⟩
-        · rintro ⟨f', sym', u', k', ⟨rfl, rfl⟩, hl, rfl⟩
+        · intro hr; exact Or.inr ⟨f, sym, u, k, ⟨rfl, rfl⟩, h, hr.symm⟩
+        · rintro (⟨_, hf⟩ | ⟨f', sym', u', k', ⟨rfl, rfl⟩, hl, rfl⟩)
+          · exact absurd hf (by simp)
           rw [h] at hl
           simp only [Option.some.injEq, List.cons.injEq, Prod.mk.injEq, and_true] at hl
           rw [hl.1]
@@ -1063,6 +1064,50 @@ theorem toUnitless_iterable (l : List (Val α)) (u : PyVal α) (hu : u.WF) :
       have : ¬ q.unit.dims = (Unit.one : Unit α).dims := by
         intro h; apply hd; apply hdivd.mp; rw [hv]; exact h
       simp [rescale, quantitiesRescale, Quantity.dimensionless, this, Except.map]
+
+/-! ### round 9: composition and scaling for containers -/
+
+theorem forall₂_map_right {β γ δ : Type} {R : β → γ → Prop} {R' : β → δ → Prop} (f : γ → δ) {l : List β} {xs : List γ}
+    (h : List.Forall₂ R l xs) (hf : ∀ v x, R v x → R' v (f x)) : List.Forall₂ R' l (xs.map f) := by
+  induction h with
+  | nil => exact List.Forall₂.nil
+  | cons h1 _ ih => exact List.Forall₂.cons (hf _ _ h1) ih
+
+/-- conversions compose element-wise: a container converted to `u`, times the conversion of `u` to `w`, is the container converted to `w` -/
+theorem toUnitlessFlat_compose (l : List (PyVal α)) (u w : PyVal α) (hl : ∀ a ∈ l, a.WF) (hu : u.WF) (hw : w.WF) (hu0 : u.si ≠ 0)
+    (xs : List α) (b : α) (h1 : toUnitlessFlat l u = .ok xs) (h2 : toUnitlessScalar u w = .ok b) :
+    toUnitlessFlat l w = .ok (xs.map (· * b)) := by
+  obtain ⟨hd2, rfl⟩ := (toUnitlessScalar_ok_iff hu hw b).mp h2
+  rw [toUnitlessFlat_ok_iff] at h1 ⊢
+  have hmem : List.Forall₂ (fun v x => v ∈ l ∧ toUnitlessScalar v u = .ok x) l xs := by
+    clear hl
+    induction h1 with
+    | nil => exact List.Forall₂.nil
+    | cons h _ ih =>
+      refine List.Forall₂.cons ⟨by simp, h⟩ (ih.imp fun a x hx => ⟨by simp [hx.1], hx.2⟩)
+  refine forall₂_map_right (· * (u.si / w.si)) hmem ?_
+  rintro v x ⟨hv, hx⟩
+  obtain ⟨hd1, rfl⟩ := (toUnitlessScalar_ok_iff (hl v hv) hu x).mp hx
+  refine (toUnitlessScalar_ok_iff (hl v hv) hw _).mpr ⟨hd1.trans hd2, ?_⟩
+  field_simp
+
+/-- scaling is linear element-wise -/
+theorem toUnitlessFlat_scale (l : List (PyVal α)) (u : PyVal α) (hl : ∀ a ∈ l, a.WF) (hu : u.WF) (c : α) (xs : List α)
+    (h : toUnitlessFlat l u = .ok xs) :
+    toUnitlessFlat (l.map fun a => (PyVal.num c).mul a) u = .ok (xs.map (c * ·)) := by
+  rw [toUnitlessFlat_ok_iff] at h ⊢
+  have hmem : List.Forall₂ (fun v x => v ∈ l ∧ toUnitlessScalar v u = .ok x) l xs := by
+    clear hl
+    induction h with
+    | nil => exact List.Forall₂.nil
+    | cons h _ ih =>
+      refine List.Forall₂.cons ⟨by simp, h⟩ (ih.imp fun a x hx => ⟨by simp [hx.1], hx.2⟩)
+  rw [List.forall₂_map_left_iff, List.forall₂_map_right_iff]
+  refine hmem.imp ?_
+  rintro v x ⟨hv, hx⟩
+  obtain ⟨hd, rfl⟩ := (toUnitlessScalar_ok_iff (hl v hv) hu x).mp hx
+  refine (toUnitlessScalar_ok_iff (scale_wf c (hl v hv)) hu _).mpr ⟨by rw [scale_dims, hd], ?_⟩
+  rw [scale_si]; ring
 
 /-! ### allclose: the test is a statement about physical values -/
 section Ordered
@@ -1222,6 +1267,30 @@ theorem allcloseTriples_shapes (x : PyVal β) (l : List (PyVal β)) (hl : l.leng
       List.replicate_one, any2, Bool.false_eq_true, if_false, hexr]
   · simp only [allcloseTriples, broadcastLen, ArrArg.len?, ArrArg.expand, List.length_singleton, hl, if_false, if_true,
       Option.getD_some, hexl, hex1, hexn, hexr, any3, Bool.false_eq_true]
+
+/-- the three-operand broadcast (fixes e80401e, dadaf52): an array atol longer than both (length-1 or scalar) operands is paired
+    element by element with the repeated operands — every atol element is compared -/
+theorem allcloseTriples_atol_longer (x y : PyVal β) (ts : List (PyVal β)) (hts : ts.length ≠ 1) (hd : x.dims = y.dims) :
+    allcloseTriples (.arr [x]) (.arr [y]) (some (.arr ts)) =
+      some (.ok ((List.replicate ts.length x).zip ((List.replicate ts.length y).zip (ts.map some)))) ∧
+    allcloseTriples (.scalar x) (.scalar y) (some (.arr ts)) =
+      some (.ok ((List.replicate ts.length x).zip ((List.replicate ts.length y).zip (ts.map some)))) := by
+  have hx : x.asQuantity.unit.dims = y.asQuantity.unit.dims := hd
+  have h1 : (1 : ℕ) ≠ ts.length := fun h => hts h.symm
+  have hex : expandList ts.length ts = ts := by
+    match ts, hts with
+    | [], _ => rfl
+    | [t], h => exact absurd rfl h
+    | _ :: _ :: _, _ => rfl
+  have her : ∀ z : PyVal β, expandList ts.length [z] = List.replicate ts.length z := fun _ => rfl
+  have he1 : ∀ z : PyVal β, expandList 1 [z] = [z] := fun _ => rfl
+  constructor
+  · simp only [allcloseTriples, broadcastLen, ArrArg.len?, ArrArg.expand, List.length_singleton, if_true, Option.getD_some, he1,
+      List.replicate_one, List.zip_cons_cons, List.zip_nil_right, List.any_cons, List.any_nil, hx, ne_eq, not_true_eq_false, decide_false,
+      Bool.or_self, Bool.false_eq_true, if_false, h1, her, hex]
+  · simp only [allcloseTriples, broadcastLen, ArrArg.len?, ArrArg.expand, Option.getD_none, List.replicate_one, List.zip_cons_cons,
+      List.zip_nil_right, List.any_cons, List.any_nil, hx, ne_eq, not_true_eq_false, decide_false, Bool.or_self, Bool.false_eq_true,
+      if_false, Option.getD_some, her, hex]
 
 end Ordered
 
